@@ -13,6 +13,9 @@ CLAIMED = {
     'C03': ('DESIGN.md 4 C03', E1,
             'Answer sets, per-answer additionals, TTLs and flush marking of QueryHandler.async_response equal a declarative reference responder for every enumerated (registry script, questions, known answers) shape, for all service TTLs 1..2^31-1 and known-answer TTLs 0..2^32-1 (half-TTL boundary solver-decided).',
             'Trusted: as C05 plus the reference responder in vkit/responder.py. Question types and names are enumerated, not symbolic.'),
+    'C11': ('DESIGN.md 4 C11', E1,
+            'Destination, socket, id, flags, question echo and answer sets of the unicast / immediate multicast / delayed multicast transmissions for one query (<= 2 questions, QU/QM, probe) match the statement for every source port 0..65535, query id, sighting age and cached TTL; header id, flags, counts and class words of the real packets() read back through value-carrying packer stand-ins for symbolic id / class / flush bit.',
+            'Trusted: as C05; packer stand-ins (vkit/wire.py) preserve widths and values. One registered service, IPv4 sockets only.'),
     'C12': ('DESIGN.md 4 C12', E1,
             'Send times of every multicast answer, for enumerated query sequences (<= 3 queries, probes, truncated trains), lie inside the per-query windows of the statement for all arrival gaps 0..2000 ms, all jitter draws and all sighting ages 0..2500 ms; liveness, safety, economy and batch uniqueness per obligation.',
             'Trusted: as C05 plus timers firing exactly on time. The one-second rule is checked for answers, not for records riding in the additional section.'),
